@@ -277,11 +277,13 @@ func (t *CallableType) Parameters() (params []px.Value) {
 		return px.EmptyValues
 	}
 	if pt, ok := t.paramsType.(*TupleType); ok {
-		tupleParams := pt.Parameters()
-		if len(tupleParams) == 0 {
-			params = make([]px.Value, 0)
-		} else {
-			params = px.Select(tupleParams, func(p px.Value) bool { _, ok := p.(*UnitType); return !ok })
+		params = pt.Parameters()
+		if len(pt.types) == 1 {
+			if _, ok := pt.types[0].(*UnitType); ok {
+				// the Unit placeholder of Callable[min, max]: only the size is a parameter, also when the
+				// tuple leaves it out (Callable[1, 1]); other Unit types are parameters like any type
+				params = pt.givenOrActualSize.SizeParameters()
+			}
 		}
 	} else {
 		params = make([]px.Value, 0)
